@@ -322,9 +322,11 @@ func (in *Interp) forStmt(s gen.For) (ctl, Value) {
 	in.push()
 	defer in.pop()
 	var lv *cell
-	if s.Var != "" {
-		lv = &cell{}
-		in.cur.vars[s.Var] = lv
+	bind := func() { // the loop variable comes into scope after the range operands are evaluated
+		if s.Var != "" {
+			lv = &cell{}
+			in.cur.vars[s.Var] = lv
+		}
 	}
 	body := func(v Value) (bool, ctl, Value) {
 		in.step()
@@ -356,6 +358,7 @@ func (in *Interp) forStmt(s gen.For) (ctl, Value) {
 		if step == 0 {
 			panic(Panic{"range-value", "step cannot be 0"})
 		}
+		bind()
 		if lv != nil {
 			lv.v = 0.0
 		}
@@ -367,6 +370,7 @@ func (in *Interp) forStmt(s gen.For) (ctl, Value) {
 		return ctlNone, nil
 	}
 	over := in.eval(s.Over)
+	bind()
 	switch o := over.(type) {
 	case *Arr:
 		if lv != nil {
